@@ -131,7 +131,7 @@ def main():
             results.append((f, res[j]))
     # timeouts under load are re-run alone with a 60 s watchdog before they count
     to = [(f, t) for f, t in results if t[1] == "TIMEOUT"]
-    for (f, t) in to:
+    for (f, t) in to[:8]:       # (a reader that hangs on everything would otherwise cost a minute per file)
         label, fmt, data, ext = f
         op = ("TRYBASIS h0 f%s" % ext) if fmt == "BAS" else ("TRYREAD f%s %s 60" % (ext, fmt))
         rc, out, err = run_io("%s\nPUT f%s %s\n%s\n" % (load_block(0, BAS_PROBLEM), ext, enc(data), op), asan=True, timeout=200)
